@@ -470,7 +470,9 @@ func c19GenSched(t *rapid.T, maxSteps int) []c19Step {
 
 type c19GidKey struct{}
 
-func c19Ctx(gid int) context.Context { return context.WithValue(context.Background(), c19GidKey{}, gid) }
+func c19Ctx(gid int) context.Context {
+	return context.WithValue(context.Background(), c19GidKey{}, gid)
+}
 func c19Gid(ctx context.Context) int {
 	if v, ok := ctx.Value(c19GidKey{}).(int); ok {
 		return v
